@@ -193,7 +193,7 @@ fn valid_frame_bytes() -> impl Strategy<Value = Vec<u8>> {
         }),
         2 => crate::scenario::vp9_key_strategy().prop_map(|k| k.build(3).0),
         2 => (any::<bool>(), 0u8..4, 0u8..13, 0u8..8, 0u16..60, 0u8..10).prop_map(|(pa, profile, sfi, chan, len, corrupt)| {
-            AdtsGene { protection_absent: pa, profile, sfi, chan, payload_len: len, extra: 0, fill: corrupt, corrupt }.build(5).0
+            AdtsGene { protection_absent: pa, profile, sfi, chan, payload_len: len, extra: 0, fill: corrupt, corrupt, misc: 0 }.build(5).0
         }),
         1 => (any::<u8>(), any::<bool>(), 0u8..4, any::<u8>(), 0u16..40, 0u8..4)
             .prop_map(|(config, stereo, code, count_byte, len, corrupt)| OpusGene { config, stereo, code, count_byte, len, corrupt }.build(9).0),
@@ -314,7 +314,7 @@ pub fn eval_api_inner(c: &ApiCase) -> Outcome {
                 if cfg.audio == 7 {
                     OpusGene { config: shape >> 3, stereo: shape & 4 != 0, code: shape & 3, count_byte: *corrupt, len: *size, corrupt: corrupt % 4 }.build(i as u64).0
                 } else {
-                    AdtsGene { protection_absent: shape & 1 != 0, profile: (shape >> 1) & 3, sfi: shape >> 4, chan: shape >> 5, payload_len: *size, extra: corrupt & 3, fill: *corrupt, corrupt: corrupt % 11 }
+                    AdtsGene { protection_absent: shape & 1 != 0, profile: (shape >> 1) & 3, sfi: shape >> 4, chan: shape >> 5, payload_len: *size, extra: corrupt & 3, fill: *corrupt, corrupt: corrupt % 11 , misc: 0}
                         .build(i as u64)
                         .0
                 }
